@@ -17,15 +17,15 @@ import (
 // Anything not listed is ignored (and listed in the evidence as unmodelled): this
 // can hide a race, it cannot invent one.
 var externalEffects = map[string]string{
-	"github.com/plar/go-adaptive-radix-tree/v2.Tree.Insert":  "write",
-	"github.com/plar/go-adaptive-radix-tree/v2.Tree.Delete":  "write",
-	"github.com/plar/go-adaptive-radix-tree/v2.Tree.Search":  "read",
-	"github.com/plar/go-adaptive-radix-tree/v2.Tree.ForEach": "read",
+	"github.com/plar/go-adaptive-radix-tree/v2.Tree.Insert":        "write",
+	"github.com/plar/go-adaptive-radix-tree/v2.Tree.Delete":        "write",
+	"github.com/plar/go-adaptive-radix-tree/v2.Tree.Search":        "read",
+	"github.com/plar/go-adaptive-radix-tree/v2.Tree.ForEach":       "read",
 	"github.com/plar/go-adaptive-radix-tree/v2.Tree.ForEachPrefix": "read",
-	"github.com/plar/go-adaptive-radix-tree/v2.Tree.Iterator": "read",
-	"github.com/plar/go-adaptive-radix-tree/v2.Tree.Minimum":  "read",
-	"github.com/plar/go-adaptive-radix-tree/v2.Tree.Maximum":  "read",
-	"github.com/plar/go-adaptive-radix-tree/v2.Tree.Size":     "read",
+	"github.com/plar/go-adaptive-radix-tree/v2.Tree.Iterator":      "read",
+	"github.com/plar/go-adaptive-radix-tree/v2.Tree.Minimum":       "read",
+	"github.com/plar/go-adaptive-radix-tree/v2.Tree.Maximum":       "read",
+	"github.com/plar/go-adaptive-radix-tree/v2.Tree.Size":          "read",
 }
 
 func (p *Prog) sharedStructField(f *types.Var) bool {
